@@ -47,5 +47,13 @@ def modViaDiv128 (m a b : Int) : Option Int :=
 /-- `Mul` that scales down BEFORE multiplying (`f / mult * value`): no intermediate overflow, but the fraction digits
     of the first factor are lost -/
 def mulScaleFirst64 (m a b : Int) : Int := F64.mulI (F64.quo a m) b
+/-- `Round` as "push half a unit away from zero, then `Trunc`" (`(f + half).Trunc()` / `(f - half).Trunc()`; seeded
+    change `ind7-c03-b`): the sum wraps for operands within half a unit of the limits -/
+def roundAddHalf64 (m a : Int) : Int :=
+  let half := F64.quo m 2
+  if a < 0 then F64.trunc m (F64.sub a half) else F64.trunc m (F64.add a half)
+def roundAddHalf128 (m a : Int) : Int :=
+  let half := F128.quo m 2
+  if F128.lt a 0 then F128.trunc m (F128.sub a half) else F128.trunc m (F128.add a half)
 
 end Fixed.Contrast
